@@ -81,12 +81,12 @@ def sig(meta, v, tr):
 
 def fault_schedules(quick, rng):
     out = [([], [])]
-    K = 5 if quick else 8
+    K = 5 if quick else 14
     for k in range(K):
         for f in ("drop", "corrupt", "dup"):
             out.append((["deliver"] * k + [f], []))
             out.append(([], ["deliver"] * k + [f]))
-    for _ in range(6 if quick else 60):
+    for _ in range(6 if quick else 500):
         a = [rng.choices(("deliver", "drop", "corrupt", "dup"), (80, 7, 7, 6))[0] for _ in range(30)]
         b = [rng.choices(("deliver", "drop", "corrupt", "dup"), (80, 7, 7, 6))[0] for _ in range(30)]
         out.append((a, b))
